@@ -64,7 +64,7 @@ TRewrite == IsEvent("rewrite") /\ Ev.src \in Live /\ Rewrite(Ev.kind, Ev.src) /\
 Keep == Step("refuse", {}, objs)
 Refuse(kind, a) ==
     LET o == O(a) IN
-    CASE kind = "join"        -> Ev.src2 \in Live /\ ~JoinDefined(o, O(Ev.src2), Ev.id) /\ Keep
+    CASE kind = "join"        -> Ev.src2 \in Live /\ ~JoinMustAccept(o, O(Ev.src2), Ev.id) /\ Keep
       [] kind = "simplified"  -> ~(HasCur(o, A.out) /\ SimplifyMustAccept(o, OrigOf(o, A.out))) /\ Keep
       [] kind = "split"       -> ~SplitMustAccept(o) /\ Keep
       [] kind = "nest"        -> ~(NestKnown(o) /\ NestMustAccept(o, NestS(o), OrigSet(o, SeqToSet(A.N)))) /\ Discard(a, "refuse")
